@@ -242,6 +242,20 @@ func (w *world) build(s *Sx) Fut {
 		return w.h(a[1]).OrFuture(w.h(a[2]))
 	case "m.failed":
 		return future.Map(w.h(a[1]).Failed(), func(e error) any { return ShowErr(e) }, c...)
+	// futures of futures, nested (work package HOF): the inner definition is built in place
+	case "flattenS": // Flatten(Successful(D))
+		return future.Flatten(future.Successful[Fut](w.build(a[1])))
+	case "flattenSS": // Flatten(Flatten(Successful(Successful(D)))): a future of a future of a future
+		return future.Flatten(future.Flatten(future.Successful[fp.Future[Fut]](future.Successful[Fut](w.build(a[1])))))
+	case "liftMF": // LiftM(kf)(D): the lifted function is applied to a freshly built future
+		return future.LiftM(w.kf(a[2]), c...)(w.build(a[1]))
+	case "liftMM": // LiftM(v => LiftM(kf2)(kf1(v)))(h): the user function itself builds a future of a future
+		k1 := a[2]
+		id1 := k1.List[1].Int()
+		return future.LiftM(func(v any) Fut {
+			Emit("kf%d:%s", id1, Show(v))
+			return future.LiftM(w.kf(a[3]), c...)(w.kfBody(k1, v))
+		}, c...)(w.h(a[1]))
 	}
 	if f, ok := w.buildFam(s); ok {
 		return f
@@ -354,13 +368,44 @@ func genKF(r *Rng, nsrc, ndef int) *Sx {
 
 func genF2(r *Rng) *Sx { return L(A(Pick(r, "add", "pair")), I(NewID())) }
 
+// genHO: nested futures of futures (Flatten / Successful of a future / LiftM inside LiftM), work package HOF
+func genHO(r *Rng, nsrc, ndef int) *Sx {
+	inner := func() *Sx {
+		if r.Intn(3) == 0 {
+			return L(A("liftM"), genH(r, nsrc, ndef), genKF(r, nsrc, ndef))
+		}
+		return genPlainDef(r, nsrc, ndef)
+	}
+	switch r.Intn(6) {
+	case 0, 1:
+		if r.Intn(4) == 0 {
+			return L(A("flattenS"), L(A("flattenS"), inner()))
+		}
+		return L(A("flattenS"), inner())
+	case 2:
+		return L(A("flattenSS"), inner())
+	case 3:
+		return L(A("liftMF"), inner(), genKF(r, nsrc, ndef))
+	}
+	return L(A("liftMM"), genH(r, nsrc, ndef), genKF(r, nsrc, ndef), genKF(r, nsrc, ndef))
+}
+
 func genDef(r *Rng, nsrc, ndef int) *Sx {
-	h := func() *Sx { return genH(r, nsrc, ndef) }
+	if r.Intn(100) < 8 {
+		d := genHO(r, nsrc, ndef)
+		hist["ho."+d.Head()]++
+		return d
+	}
 	if r.Intn(100) < 40 {
 		if d := genFam(r, nsrc, ndef); d != nil {
 			return d
 		}
 	}
+	return genPlainDef(r, nsrc, ndef)
+}
+
+func genPlainDef(r *Rng, nsrc, ndef int) *Sx {
+	h := func() *Sx { return genH(r, nsrc, ndef) }
 	switch r.Intn(30) {
 	case 0:
 		return L(A("successful"), I(r.Range(-3, 9)))
